@@ -38,7 +38,7 @@ func c15(c *core.Ctx, r *core.Report) {
 		"(R4) limits map one-to-one onto RunnableStages and api.Options and the trigger's duration is the total; (R5) stages run synchronously in slice order, each returns only after its goroutine finished, parameters are set before the stage goroutine starts and unset (same map) on every exit."
 	r.NotDecided = []string{"time.Time arithmetic itself", "visibility of the environment inside user code"}
 	fpkg := "internal/trigger/file"
-	pcf := c.MustFn(fpkg, "ParseConfigFile")
+	pcf := delegateTarget(c.MustFn(fpkg, "ParseConfigFile"))
 
 	var totalPhi *ssa.Phi
 	pcfEntry := pcf
@@ -562,6 +562,19 @@ func c15(c *core.Ctx, r *core.Report) {
 					r.Check(strings.HasSuffix(d, "#0.Scenario"), key, an.Pos(c, ret), "← "+shortPath(d), "Scenario is fed from "+shortPath(d))
 				default:
 					want := strings.ToUpper(f[:1]) + f[1:]
+					if lim, _ := c.Named(fpkg, "Limits").Underlying().(*types.Struct); lim != nil {
+						has := false
+						for j := 0; j < lim.NumFields(); j++ {
+							if lim.Field(j).Name() == want {
+								has = true
+							}
+						}
+						if !has {
+							// a figure of the plan that is not one of the file's limits (a count of skipped stages, …)
+							r.Note(key, an.Pos(c, ret), "%s is not a limit of the file: ← %s", f, shortPath(d))
+							continue
+						}
+					}
 					r.Check(strings.HasSuffix(d, "#0.Limits."+want), key, an.Pos(c, ret), "← "+shortPath(d), "RunnableStages."+f+" is fed from "+shortPath(d)+", expected Limits."+want)
 				}
 			}
